@@ -78,7 +78,7 @@ CHECKS.update({
 CHECKS.update({
  "C08": ("independent pair-arithmetic reference (component formulas, exp/ln/atan2 definitions), validity predicates for inverse functions, differential against eval_f64 on real operands; exhaustive literal/real grids + random trees (proptest)",
          "Exploration: every literal form and every operator/function on in-domain real operands exhaustively; random exact-operator trees compared bit for bit; every operator/function spelling applied at the root of random exact subtrees over generic complex operands compared at the tolerance the property states, inverse functions through their defining identity and principal range.",
-         "Operands within 1e-3 of a branch cut (but not exactly on it) or of zero modulus, above 1e3 in modulus, and library-valued operands that are not generic are skipped and counted; exactly on a cut either one-sided limit is accepted; an approximate node below the root is judged one step at a time on the library's own operand values. Three recorded findings (asinh/atanh/atan of arguments below 1e-6) are printed as KNOWN-FINDING.", "4/C08, 10, 11"),
+         "Operands within 1e-3 of a branch cut (but not exactly on it) or of zero modulus, above 1e3 in modulus, and library-valued operands that are not generic are skipped and counted; exactly on a cut either one-sided limit is accepted; an approximate node below the root is judged one step at a time on the library's own operand values. Four recorded findings (asinh/atanh/atan/asin of arguments below 1e-6) are printed as KNOWN-FINDING.", "4/C08, 10, 11"),
 })
 
 CHECKS.update({
@@ -139,7 +139,7 @@ def main():
         ],
         "checks": checks,
         "not_applicable": na,
-        "notes": "Property-based testing and fuzzing only. ./check <ID> quick|thorough; VERIF_SEED selects the PRNG seed. Exit 0 = held, 1 = VIOLATION lines, 2 = inconclusive. known_findings.txt lists repaired defects (fixed:, suppress nothing) and recorded ones (known:, three for C08, printed as KNOWN-FINDING on every run of ./check C08). seeded/ holds 159 independently produced changes to /repo with their detection records (DESIGN.md section 12).",
+        "notes": "Property-based testing and fuzzing only. ./check <ID> quick|thorough; VERIF_SEED selects the PRNG seed. Exit 0 = held, 1 = VIOLATION lines, 2 = inconclusive. known_findings.txt lists repaired defects (fixed:, suppress nothing) and recorded ones (known:, four for C08, printed as KNOWN-FINDING on every run of ./check C08). seeded/ holds 159 independently produced changes to /repo with their detection records (DESIGN.md section 12).",
     }
     if not na:
         m["not_applicable"] = []
